@@ -3,7 +3,7 @@
 # patch) and run the named checks against it in a scratch worktree of /repo HEAD.
 sd="$1"; i="$2"; shift 2
 wt=/tmp/seedwt_$$
-git -C /repo worktree add -q --detach $wt HEAD || exit 2
+git -C /repo worktree add -q --detach $wt ${SEED_BASE:-HEAD} || exit 2
 ( cd $wt && PYTHONPATH=$wt timeout 600 /venv/bin/python $sd/demo_$i.py >/dev/null 2>&1; echo "demo on HEAD: exit $?" )
 if ! git -C $wt apply $sd/patch_$i.diff; then echo "PATCH DOES NOT APPLY"; git -C /repo worktree remove --force $wt; exit 3; fi
 ( cd $wt && PYTHONPATH=$wt timeout 600 /venv/bin/python $sd/demo_$i.py >/dev/null 2>&1; echo "demo with patch: exit $?" )
